@@ -421,8 +421,18 @@ class CompositeFrontend(ConstrainedFrontend):
         # a concretely false constraint is held by no child
         cores = [c for c in self.constraints if not c.symbolic and c.is_false()] if self._unsat else []
 
+        if len(extra_constraints) == 0:
+            for solver in self._solver_list:
+                cores.extend(list(solver.unsat_core()))
+            return cores
+
+        # extra constraints may connect several children, none of which is unsatisfiable with them on its own: ask
+        # the solver that holds those children together, and the remaining children on their own
+        ms = self._merged_solver_for(lst=extra_constraints)
+        cores.extend(list(ms.unsat_core(extra_constraints=extra_constraints)))
         for solver in self._solver_list:
-            cores.extend(list(solver.unsat_core(extra_constraints=extra_constraints)))
+            if solver is not ms and solver.variables.isdisjoint(ms.variables):
+                cores.extend(list(solver.unsat_core()))
 
         return cores
 
